@@ -14,7 +14,7 @@ try:
     r = sh(f"git -C /repo worktree add -q --detach {wt} HEAD")
     assert r.returncode == 0, r.stderr
     shutil.copy("/repo/gemclus/tree/_utils.cpython-312-x86_64-linux-gnu.so", f"{wt}/gemclus/tree/")
-    env = dict(os.environ, PYTHONPATH=wt)
+    env = dict(os.environ, PYTHONPATH=wt, OMP_NUM_THREADS="1", OPENBLAS_NUM_THREADS="1", MKL_NUM_THREADS="1")
     shutil.copy(f"{d}/demo.py", f"{wt}/_demo.py")
     r = sh(f"cd {wt} && timeout 600 /venv/bin/python -W ignore _demo.py", env=env)
     res["demo_clean_rc"] = r.returncode
